@@ -1,27 +1,32 @@
 /-
   C13 — Exported input reproduces the adjustment and is a fixed point.
 
-  Property theorems only; helper lemmas live in Gama/Lemmas/Export.lean.  `route` (which attribute of
-  which element reaches which constructor argument / setter in GKFparser::process_*) is REGENERATED from
-  gkfparser.cpp; the parser model is generic in it, so the proofs below are re-checked against the
-  attribute handling of the tree being checked.
+  Property theorems only; helper lemmas live in Gama/Lemmas/Export*.lean.  The tables the models are generic in are
+  REGENERATED on every run: `route` (Gen/GkfAttrs.lean, from gkfparser.cpp) and Gen/GkfDoc.lean (gkfparser.cpp, network.cpp,
+  observation.cpp, lcoords.h), so the proofs below are re-checked against the tree being checked.
 
-  Covered by theorems: observations of an `<obs>` cluster with all their attributes (from, to/bs/fs, val,
-  stdev, from_dh, to_dh/bs_dh, fs_dh, extern), `<dh>` (dist / stdev, extern), `<cov-mat>`, a whole
-  StandPoint cluster; fixed point of export∘parse∘export.  The single hypothesis about numbers is
-  `rd (fmt x) = some x` (+ `isZero x ↔ x = 0`).  Explored only (tools/props/c13.py): points and status,
-  parameters, vectors/coordinates clusters, units (gon/degree), digits printed, and everything that
-  involves the adjustment (same coordinates, no further iterations, n = 1, 2, 3 rounds).
+  Covered by theorems: the whole document — `<network>`, `<parameters>`, points with status, the four cluster kinds with
+  their covariance matrices — in gons AND in degrees (`angles="360"`: sexagesimal values through the shared gon2deg /
+  deg2gon models of C18, standard deviations and covariance rows in sexagesimal seconds), for an exact codec on the
+  representable numbers and for a printer with finitely many digits (quantisation); the hypothesis `Net.WF` is decidable;
+  what the exported coordinates are (refine_approx_coordinates) and when re-adjusting the export reproduces the
+  adjustment with zero iterations (refine_adjustment).  Explored only (tools/props/c13.py): the digits gama prints, the
+  adjustment itself (the theorems take it as a function of the network, which is what C01 / C04 / C05 / C09 prove of its
+  parts), n = 1, 2, 3 rounds.
 -/
 import Gama.Lemmas.Export
 import Gama.Lemmas.ExportNet
 import Gama.Lemmas.ExportQuant
 import Gama.Lemmas.ExportPrinter
 import Gama.Lemmas.ExportExamples
+import Gama.Lemmas.ExportDegrees
+import Gama.Lemmas.ExportAdj
+import Gama.Lemmas.ExportParse
+import Gama.Lemmas.C06GN
 namespace Gama.Props.C13
 open Gama Gama.Export Gama.Gen.GkfAttrs Gama.Gen.GkfDoc
 
-variable {K : Type} {R : K → Prop}
+variable {K : Type} {R Rd : K → Prop}
 
 /-- parse ∘ export = id on an observation with every attribute (all six kinds, attributes zero or not,
     own or inherited standpoint, with or without extern) -/
@@ -42,12 +47,13 @@ theorem C13_fixed_point (F : NumFmt K) (hF : F.LawfulOn R) (impl : Kind → K) (
     (parseCluster F impl (exportCluster F true c)).map (exportCluster F true) = .ok (exportCluster F true c) := by
   rw [parse_export_cluster F hF impl c hw hr hdir]; rfl
 
-/-- `<dh>`: `dist` is exported when positive (then the standard deviation is the implied one), else `stdev` -/
+/-- `<dh>`: `dist` is exported when positive, `stdev` always (the tree since 9f04c51): value, distance, standard deviation
+    and extern come back whatever the relation between distance and standard deviation -/
 theorem C13_roundtrip_dh (F : NumFmt K) (hF : F.LawfulOn R) (sd : K → K) (pos : K → Bool) (h : HDiff K)
-    (h1 : h.from_ ≠ "") (h2 : h.to ≠ "") (hr : R h.val ∧ (pos h.dist = true → R h.dist) ∧ (pos h.dist = false → R h.stdev))
-    (hpos : pos h.dist = false → h.dist = F.zero) (hsd : pos h.dist = true → h.stdev = sd h.dist) :
-    parseDh F sd (exportDh F true pos h).2 = .ok h :=
-  parse_export_dh F hF sd pos h h1 h2 hr hpos hsd
+    (h1 : h.from_ ≠ "") (h2 : h.to ≠ "") (hr : R h.val ∧ (pos h.dist = true → R h.dist) ∧ R h.stdev)
+    (hpos : pos h.dist = false → h.dist = F.zero) :
+    parseDh F sd (exportDh F true pos true h).2 = .ok h :=
+  parse_export_dh_always F hF sd pos h h1 h2 hr hpos
 
 /-- `<cov-mat>`: same dim, band and elements -/
 theorem C13_roundtrip_cov (F : NumFmt K) (hF : F.LawfulOn R) (c : Cov K) (hr : ∀ x ∈ c.data, R x) :
@@ -112,14 +118,15 @@ theorem C13_roundtrip_axes (C : Codec K) (hC : C.LawfulOn R) (h : Head K) (hrep 
 
 /-- a `<vectors>` cluster: ids, dx dy dz, extern, and the covariance matrix; with inconsistent axes / angles dy and the
     covariances between dy and dx / dz are written with the opposite sign and `remove_inconsistency()` (`mirrorClusterIf`)
-    restores them: s·s = 1.  The parser's other state (points, earlier clusters) is untouched. -/
-theorem C13_roundtrip_vectors (C : Codec K) (hC : C.LawfulOn R) (impl : Kind → K) (par : Params K) (ys : Bool)
+    restores them: s·s = 1.  The parser's other state (points, earlier clusters) is untouched.  Gons or degrees. -/
+theorem C13_roundtrip_vectors (C : Codec K) (hC : C.LawfulOn R) (hD : C.DegLawfulOn Rd) (impl : Kind → K) (par : Params K)
+    (ys gons : Bool)
     (ps : List (Point K)) (cl : List (Cluster K)) (pp : String) (vecs : List (Vec K)) (cov : Cov K)
-    (hw : (Cluster.vectors vecs cov).WF C R par.sigmaApr ps) :
-    ∃ pp', (parseItem C impl par ⟨ps.map (mirrorIf C ys), cl, pp⟩ (exportCluster' C ys true (.vectors vecs cov))).map
+    (hw : (Cluster.vectors vecs cov).WF C R Rd gons par.sigmaApr ps) :
+    ∃ pp', (parseItem C impl par ⟨ps.map (mirrorIf C ys), cl, pp⟩ (exportCluster' C ys gons (.vectors vecs cov))).map
         (fun s => { s with clusters := s.clusters.map (mirrorClusterIf C ys) })
       = .ok ⟨ps.map (mirrorIf C ys), cl.map (mirrorClusterIf C ys) ++ [.vectors vecs cov], pp'⟩ := by
-  obtain ⟨pp', h⟩ := parse_export_cluster' C hC impl par ys ps cl pp _ hw
+  obtain ⟨pp', h⟩ := parse_export_cluster' C hC hD impl par ys gons ps cl pp _ hw
   refine ⟨pp', ?_⟩
   rw [h]
   cases ys
@@ -128,59 +135,231 @@ theorem C13_roundtrip_vectors (C : Codec K) (hC : C.LawfulOn R) (impl : Kind →
 
 /-- a `<coordinates>` cluster: ids, x y z, extern of the cluster, covariance matrix with the y_sign conjugation; the
     points it names keep their coordinates (`agrees`: the parser stores the observed coordinates in PointData) -/
-theorem C13_roundtrip_coordinates (C : Codec K) (hC : C.LawfulOn R) (impl : Kind → K) (par : Params K) (ys : Bool)
+theorem C13_roundtrip_coordinates (C : Codec K) (hC : C.LawfulOn R) (hD : C.DegLawfulOn Rd) (impl : Kind → K) (par : Params K)
+    (ys gons : Bool)
     (ps : List (Point K)) (cl : List (Cluster K)) (pp : String) (ext : String) (pts : List (CPoint K)) (cov : Cov K)
-    (hw : (Cluster.coords ext pts cov).WF C R par.sigmaApr ps) :
-    ∃ pp', (parseItem C impl par ⟨ps.map (mirrorIf C ys), cl, pp⟩ (exportCluster' C ys true (.coords ext pts cov))).map
+    (hw : (Cluster.coords ext pts cov).WF C R Rd gons par.sigmaApr ps) :
+    ∃ pp', (parseItem C impl par ⟨ps.map (mirrorIf C ys), cl, pp⟩ (exportCluster' C ys gons (.coords ext pts cov))).map
         (fun s => { s with clusters := s.clusters.map (mirrorClusterIf C ys) })
       = .ok ⟨ps.map (mirrorIf C ys), cl.map (mirrorClusterIf C ys) ++ [.coords ext pts cov], pp'⟩ := by
-  obtain ⟨pp', h⟩ := parse_export_cluster' C hC impl par ys ps cl pp _ hw
+  obtain ⟨pp', h⟩ := parse_export_cluster' C hC hD impl par ys gons ps cl pp _ hw
   refine ⟨pp', ?_⟩
   rw [h]
   cases ys
   · simp [Except.map, mirrorClusterIf]
   · simp [Except.map, mirrorClusterIf, mirrorCluster_mirrorCluster C hC]
 
+/-! ### output in degrees (`angles="360"`) -/
+
+/-- an observation of `<obs>` in gons or degrees: in degrees the value of a direction / angle / zenith angle / azimuth
+    is written as sexagesimal text (`gon2deg(m, 0, 4)`) and its standard deviation in seconds (`* 0.324`); the parser's
+    `deg2gon` accepts the text, the observation comes back with its standard deviation still in the unit of the file
+    (`obsOut`) and the flag "sexagesimal" set exactly for the angular observations of a file in degrees (`finish_obs`
+    then scales the flagged rows by 1.0/0.324: next theorem) -/
+theorem C13_roundtrip_obs_degrees (C : Codec K) (hC : C.LawfulOn R) (hD : C.DegLawfulOn Rd) (impl : Kind → K) (gons : Bool)
+    (cf : String) (o : Obs K) (hw : o.WF C.toNumFmt) (hr : o.RepU C R Rd gons) (hdir : o.kind = .direction → o.from_ = cf) :
+    parseElemU C impl cf C.zero (exportObsU C gons cf o) = .ok (obsOut C gons o, !gons && o.kind.angular) :=
+  parse_export_elemU C hC hD impl gons cf o hw hr hdir
+
+/-- a whole `<obs>` cluster in gons or degrees, with or without a covariance matrix: standard deviations and the rows
+    and columns of the angular observations (`unit[i]·unit[j]`, the diagonal twice) go out in seconds and come back -/
+theorem C13_roundtrip_obs_cluster_degrees (C : Codec K) (hC : C.LawfulOn R) (hD : C.DegLawfulOn Rd) (impl : Kind → K)
+    (par : Params K) (ys gons : Bool) (ps : List (Point K)) (cl : List (Cluster K)) (pp : String) (sp : StandPoint K)
+    (cov : Option (Cov K)) (hw : (Cluster.obs sp cov).WF C R Rd gons par.sigmaApr ps) :
+    ∃ pp', parseItem C impl par ⟨ps.map (mirrorIf C ys), cl, pp⟩ (exportCluster' C ys gons (.obs sp cov))
+      = .ok ⟨ps.map (mirrorIf C ys), cl ++ [.obs sp cov], pp'⟩ := by
+  obtain ⟨pp', h⟩ := parse_export_cluster' C hC hD impl par ys gons ps cl pp _ hw
+  refine ⟨pp', ?_⟩
+  rw [h]
+  cases ys <;> rfl
+
+/-- the factor of the export (0.324, DisplayObservationVisitor and updated_xml_covmat) and of the parser (1.0/0.324,
+    finish_obs) cancel over every field in which 0.324 ≠ 0: the hypotheses `fromSec (toSec x) = x`, `toSec (fromSec x) = x` -/
+theorem C13_seconds_factors_cancel {F : Type} [Field F] (h : (324 / 1000 : F) ≠ 0) (x : F) :
+    x * (324 / 1000) * (1 / (324 / 1000)) = x ∧ x * (1 / (324 / 1000)) * (324 / 1000) = x :=
+  sec_factors_cancel h x
+
+/-- the hypothesis about the sexagesimal text, for the models C18 verifies (`Gama.Angles.gon2deg` = the formatter of the
+    tree, `Gama.Angles.deg2gon`; exact arithmetic): for every angle 0 ≤ g with `g·0.9 < 2³¹−1` the text export_xml writes
+    (`gon2deg(g, 0, 4)`) is accepted by `deg2gon`, and the value read, `degQ g` — the quantisation `qd` of
+    `Codec.Printer` — differs from `g` by at most half a unit of the fourth decimal of the seconds -/
+theorem C13_sexagesimal_read_back (g : ℚ) (h0 : 0 ≤ g) (hg : g * (9 / 10) < 2147483647) :
+    ((Angles.gon2deg g 0 4).bind fun s => (Angles.deg2gon s : Option ℚ)) = some (degQ g) ∧
+    |degQ g - g| ≤ (1 / 2) / (10 : ℚ) ^ 4 / 3600 / (9 / 10) :=
+  sexagesimal_read_back g h0 hg
+
+/-! ### the whole document -/
+
 /-- the whole document: reading what export_xml wrote gives the network back (without its unused points), for all
-    networks, any number of points and clusters of the four kinds, all axes / angle conventions.  `_partial`: gons. -/
-theorem C13_roundtrip_network_partial (C : Codec K) (hC : C.LawfulOn R) (impl : Kind → K) (par0 : Params K) (n : Net K)
-    (hw : n.WF C R) : parseNet C impl par0 (exportNet C n) = .ok (canon n) :=
-  parse_export_net C hC impl par0 n hw
+    networks, any number of points and clusters of the four kinds, all axes / angle conventions, output in gons or in
+    degrees.  FULL on the model (the property's first sentence); `Net.WF` is decidable (Model/ExportWF.lean). -/
+theorem C13_roundtrip_network (C : Codec K) (hC : C.LawfulOn R) (hD : C.DegLawfulOn Rd) (impl : Kind → K) (par0 : Params K)
+    (n : Net K) (hw : n.WF C R Rd) : parseNet C impl par0 (exportNet C n) = .ok (canon n) :=
+  parse_export_net C hC hD impl par0 n hw
 
 /-- exporting what was read from an export yields the same document -/
-theorem C13_fixed_point_network_partial (C : Codec K) (hC : C.LawfulOn R) (impl : Kind → K) (par0 : Params K) (n : Net K)
-    (hw : n.WF C R) : (parseNet C impl par0 (exportNet C n)).map (exportNet C) = .ok (exportNet C n) := by
-  rw [parse_export_net C hC impl par0 n hw]
+theorem C13_fixed_point_network (C : Codec K) (hC : C.LawfulOn R) (hD : C.DegLawfulOn Rd) (impl : Kind → K) (par0 : Params K)
+    (n : Net K) (hw : n.WF C R Rd) : (parseNet C impl par0 (exportNet C n)).map (exportNet C) = .ok (exportNet C n) := by
+  rw [parse_export_net C hC hD impl par0 n hw]
   simp [Except.map, exportNet_canon]
 
 /-- points without any status are not written, and that is all `canon` changes: the exported document is the same -/
 theorem C13_export_skips_unused (C : Codec K) (n : Net K) : exportNet C (canon n) = exportNet C n :=
   exportNet_canon C n
 
-/-! ## a printer with finitely many digits (`Codec.Printer`: `rd (fmt x) = some (q x)`, `fmt (q x) = fmt x`)
+/-! ## a printer with finitely many digits (`Codec.Printer`: `rd (fmt x) = some (q x)`, `fmt (q x) = fmt x`; the
+    sexagesimal text likewise with its own quantisation `qd`)
 
-  `R x := q x = x` are the numbers the printer gives back exactly; every number read from a printed file is one, so the
-  theorems above apply verbatim to the second, third, … export.  For the first export of arbitrary numbers: -/
+  `R x := q x = x`, `Rd x := qd x = x` are the numbers the two printers give back exactly; every number read from a
+  printed file is one, so the theorems above apply verbatim to the second, third, … export.  For the first export of
+  arbitrary numbers: -/
 
-/-- the exported document does not change when every number of the network is replaced by its printed-and-read value -/
-theorem C13_export_quantised {C : Codec K} {q : K → K} (P : C.Printer q) (n : Net K) (hg : n.par.gons = true) :
-    exportNet C (quantNet C q n) = exportNet C n :=
-  exportNet_quant P n hg
+/-- the exported document does not change when every number of the network is replaced by its printed-and-read value
+    (in degrees: the value of an angular observation by `qd`, its standard deviation and covariance rows quantised in
+    seconds) -/
+theorem C13_export_quantised {C : Codec K} {q qd : K → K} (P : C.Printer q qd) (n : Net K) :
+    exportNet C (quantNet C q qd n) = exportNet C n :=
+  exportNet_quant P n
 
 /-- reading the export gives the network with every number quantised (`quantNet`: `x ↦ q x`; the latitude through its
-    unit conversion; the standard deviation of a height difference given by its length recomputed from the printed
-    length), provided the quantised values still pass the parser's guards (`Net.WF` of the quantised network) -/
-theorem C13_roundtrip_network_printer_partial {C : Codec K} {q : K → K} (P : C.Printer q) (impl : Kind → K)
-    (par0 : Params K) (n : Net K) (hw : (quantNet C q n).WF C (fun x => q x = x)) :
-    parseNet C impl par0 (exportNet C n) = .ok (canon (quantNet C q n)) :=
+    unit conversion; in degrees `val ↦ qd val`, `stdev ↦ fromSec (q (toSec stdev))`), provided the quantised values still pass the
+    parser's guards (`Net.WF` of the quantised network, decidable).  Gons and degrees. -/
+theorem C13_roundtrip_network_printer {C : Codec K} {q qd : K → K} (P : C.Printer q qd) (impl : Kind → K)
+    (par0 : Params K) (n : Net K) (hw : (quantNet C q qd n).WF C (fun x => q x = x) (fun x => qd x = x)) :
+    parseNet C impl par0 (exportNet C n) = .ok (canon (quantNet C q qd n)) :=
   parse_export_net_printer P impl par0 n hw
 
 /-- … and exporting that again gives the same document: the export is a fixed point from the first round on -/
-theorem C13_fixed_point_network_printer_partial {C : Codec K} {q : K → K} (P : C.Printer q) (impl : Kind → K)
-    (par0 : Params K) (n : Net K) (hw : (quantNet C q n).WF C (fun x => q x = x)) :
+theorem C13_fixed_point_network_printer {C : Codec K} {q qd : K → K} (P : C.Printer q qd) (impl : Kind → K)
+    (par0 : Params K) (n : Net K) (hw : (quantNet C q qd n).WF C (fun x => q x = x) (fun x => qd x = x)) :
     (parseNet C impl par0 (exportNet C n)).map (exportNet C) = .ok (exportNet C n) := by
   rw [parse_export_net_printer P impl par0 n hw]
-  simp [Except.map, exportNet_canon, exportNet_quant P n hw.gons]
+  simp [Except.map, exportNet_canon, exportNet_quant P n]
+
+/-! ## the adjustment clauses (Model/ExportAdj.lean)
+
+  gama-local exports after `refine_adjustment()`.  export_xml writes `point.x()`, `point.y()`, `point.z()` — the
+  coordinates in PointData, i.e. the point of the LAST linearisation — and never adds the corrections itself. -/
+
+/-- "approximate coordinates updated from the adjustment", as the code has it: after a pass of
+    refine_approx_coordinates with the solution `x` every point of PointData — free or constrained alike, the status is
+    not consulted — holds the adjusted coordinates of that solution (`approximate + x(i)/1000`, y from `x(i+1)`), points
+    that are not unknowns keep theirs, and export_xml writes exactly those.  `_partial`: the clause read literally
+    ("the exported coordinates are the adjusted ones of the reported adjustment") is FALSE for the code: the reported
+    adjustment is a further solution at the refined point, and when no pass was needed the given approximate coordinates
+    are exported unchanged (`C13_export_coordinates_adjusted_iff`, witness `C13_export_not_adjusted_witness`, replayed on
+    corpus/C13/net-coords-nw.gkf: P3 exported x = 107.5331, adjusted 107.5370). -/
+theorem C13_export_coordinates_are_adjusted_partial (C : Codec K) (upd : Nat → K → K → K) (z0 : K) (x : List K)
+    (unks : List UnkT) (hnd : unks.Nodup) (n : Net K) :
+    (refineNet upd z0 x unks n).points = n.points.map (adjusted upd z0 x unks) ∧
+    (exportNet C (refineNet upd z0 x unks n)).items =
+      (((n.points.map (adjusted upd z0 x unks)).filter Point.active).map (fun p => DItem.point (exportPoint C n.head.ys p))) ++
+        n.clusters.map (exportCluster' C n.head.ys n.par.gons) := by
+  have h := refineNet_points upd z0 x unks hnd n
+  refine ⟨h, ?_⟩
+  simp only [exportNet, h]
+  rfl
+
+/-- the sites the model of the refinement was written for are the ones the tree contains (regeneration tie): `x = solve()`,
+    `LocalPoint& b = PD[cb]` by reference, `x(i)/1000`, `x(i+1)/1000` for y, no test of the point's status, and the loop of
+    refine_adjustment -/
+theorem C13_refine_sites : refineSolves = true ∧ refineXY = (true, 1000, 1, 1000) ∧ refineZ = (true, 1000) ∧
+    refineLoopShape = true := by decide
+
+/-- exported = adjusted exactly when the corrections vanish: over a field, `a + d/1000 = a ↔ d = 0` -/
+theorem C13_export_coordinates_adjusted_iff {F : Type} [Field F] [CharZero F] (a d : F) : a + d / 1000 = a ↔ d = 0 := by
+  constructor
+  · intro h
+    have h1 : d / 1000 = 0 := by simpa using h
+    have h2 : (1000 : F) ≠ 0 := by norm_num
+    exact (div_eq_zero_iff.mp h1).resolve_right h2
+  · intro h; simp [h]
+
+/-- a free point with a non-zero last correction: what export_xml writes (PointData) is not the adjusted coordinate -/
+theorem C13_export_not_adjusted_witness :
+    (adjusted (fun _ a d => a + d) 0 [38, 8] [.X "P3", .Y "P3"] ⟨"P3", some (1075331, -5102111), none, .free, .unused⟩).xy
+      ≠ (⟨"P3", some (1075331, -5102111), none, .free, .unused⟩ : Point Int).xy := by decide
+
+/-- "adjusting it gives the same adjusted coordinates, residuals and statistics without further iterations" — the exact
+    statement.  `step` = one pass of refine_adjustment's loop (`none`: neither refine_obsdh_reductions nor
+    TestLinearization asks for a refinement), `adj` = everything gama-local computes from the network at its current
+    coordinates — design matrix and right-hand side (C05: a function of coordinates and observations), the solution of
+    whichever algorithm (C01 / C04: all four are functions of the problem), residuals, Φ, cofactors, statistics (C09:
+    functions of (A, b, P, Q)): ANY function of the network.  IF the run that was exported had converged — its loop ended
+    because no test asked for a refinement, not because the iteration budget was used up (`hconv`) — THEN the exported
+    document is read back as the same network (`C13_roundtrip_network`), the loop of the second run stops at once with
+    ZERO iterations, and `adj` — coordinates, residuals, statistics — is the same.  (`hadj`, `hstep`: points without any
+    status take no part in the adjustment.)  For the printed precision see `C13_roundtrip_network_printer`: the second run
+    starts from `quantNet`, the e2e oracle measures how far that moves the results. -/
+theorem C13_readjustment_identical {α : Type} (C : Codec K) (hC : C.LawfulOn R) (hD : C.DegLawfulOn Rd) (impl : Kind → K)
+    (par0 : Params K) (adj : Net K → α) (step : Net K → Option (Net K)) (fuel fuel' : Nat) (n : Net K)
+    (hw : (refineLoop step fuel n).1.WF C R Rd)
+    (hconv : step (refineLoop step fuel n).1 = none)
+    (hadj : ∀ m, adj (canon m) = adj m) (hstep : ∀ m, step m = none → step (canon m) = none) :
+    ∃ m, parseNet C impl par0 (exportNet C (refineLoop step fuel n).1) = .ok m ∧
+         refineLoop step fuel' m = (m, 0) ∧ adj m = adj (refineLoop step fuel n).1 :=
+  ⟨canon (refineLoop step fuel n).1, parse_export_net C hC hD impl par0 _ hw,
+   refineLoop_stop step fuel' _ (hstep _ hconv), hadj _⟩
+
+/-- the dependence on "converged" is real: a run that stopped only because its iteration budget was used up exports a
+    network whose re-adjustment does iterate -/
+theorem C13_readjustment_iterates_when_not_converged (step : Net K → Option (Net K)) (fuel' : Nat) (m s' : Net K)
+    (h : step m = some s') : 1 ≤ (refineLoop step (fuel' + 1) m).2 := by
+  rw [refineLoop_iterates step fuel' m s' h]
+  omega
+
+/-- a run ends converged or with its budget used up (`linearization_iterations() = max`) -/
+theorem C13_run_converged_or_exhausted (step : Net K → Option (Net K)) (fuel : Nat) (n : Net K) :
+    step (refineLoop step fuel n).1 = none ∨ (refineLoop step fuel n).2 = fuel :=
+  refineLoop_end step fuel n
+
+/-- with C06: the state in which every positional misclosure of the stopping test is zero (the iteration's fixed point,
+    `C06_fixed_point_pol…`) is a converged state of the loop — `TestLinearization` = `GN.testLin` of the misclosures -/
+theorem C13_converged_at_fixed_point (pols : Net ℝ → List ℝ) (refine : Net ℝ → Net ℝ) (n : Net ℝ) (k : ℕ)
+    (h : pols n = List.replicate k 0) :
+    (fun m => if GN.testLin (pols m) then some (refine m) else none) n = none := by
+  simp [h, C06L.testLin_zeros k]
+
+/-! ## the hypothesis `Net.WF`: decidable, and what the parser establishes of it -/
+
+/-- `Net.WF` can be decided (for decidable `R`, `Rd` and decidable equality of numbers): it is evaluated by
+    Driver/Export.lean on every document of the `doc` stream and by `decide` in the examples below -/
+theorem C13_wf_decidable (C : Codec K) [DecidableEq K] [DecidablePred R] [DecidablePred Rd] (n : Net K) :
+    decide (n.WF C R Rd) = true ↔ n.WF C R Rd := by simp
+
+/-- what GKFparser establishes for EVERY document it accepts: parameters within the guards of the setters (given that
+    the defaults of the reading network are), point ids non-empty and pairwise distinct.  `_partial`: the full statement
+    `parseNet d = ok n → Net.WF n` is FALSE for the parser — the cluster part of `Net.WF` fails for a `<dh>` given both
+    `dist` and `stdev` (the export writes `dist` only: finding F28, `C13_F28_witness`), a `<vec>` with `from_dh` / `to_dh`
+    (deliberately not exported), a `<coordinates>` point without status or with coordinates overwritten later; for all
+    other documents of the `doc` stream the driver finds `Net.WF` true.  Covariance matrices: next theorem. -/
+theorem C13_parser_establishes_wf_partial (C : Codec K) (hell : C.ellKnown "wgs84" = true) (impl : Kind → K) (par0 : Params K)
+    (d : Doc) (n : Net K) (h : parseNet C impl par0 d = .ok n) (h0 : par0.Guards C) :
+    n.par.WF C (fun _ => True) ∧ (∀ p ∈ n.points, p.id ≠ "" ∧ p.Rep (fun _ => True)) ∧ (n.points.map (·.id)).Nodup := by
+  have hp := parseNet_points_ok C impl par0 d n h
+  refine ⟨Params.wf_of_guards C _ (parseNet_params_ok C hell impl par0 d n h h0), ?_, hp.2⟩
+  intro p hpm
+  refine ⟨hp.1 p hpm, ?_⟩
+  unfold Point.Rep
+  cases p.xy <;> cases p.z <;> simp
+
+/-- every covariance matrix the parser accepts has dim ≥ 1, band < dim, dim = number of observations of its cluster and
+    exactly the packed number of elements (`process_cov`, `finish_cov`, `finish_<cluster>`) -/
+theorem C13_parser_cov_wf (C : Codec K) (n : Nat) (d : CovDoc) (c : Cov K) (h : parseCovChecked C n d = .ok c) :
+    c.WF (fun _ => True) n :=
+  parseCovChecked_wf C n d c h
+
+/-- F28 (found with the decidable hypothesis; replayed on the real code, corpus/C13/doc-dh-dist-stdev-F28.gkf): a `<dh>`
+    given both `dist` and `stdev` keeps the given standard deviation; the export before 9f04c51 (`always = false`) wrote
+    `dist` only, and reading it gave the standard deviation implied by the distance -/
+theorem C13_F28_witness :
+    (match parseDh strFmt id [(.from_, "A"), (.to, "B"), (.val, "1"), (.dist, "2"), (.stdev, "9")] with
+     | .ok h => (h.stdev, (exportDh strFmt true (· != "0") false h).2,
+         match parseDh strFmt id (exportDh strFmt true (· != "0") false h).2 with | .ok h2 => h2.stdev | .error _ => "refused")
+     | .error _ => ("refused", [], "")) = ("9", [(.from_, "A"), (.to, "B"), (.val, "1"), (.dist, "2")], "2") := by decide
+
+/-- F28 repaired: the tree writes the standard deviation of a `<dh>` always (regenerated; false before 9f04c51) -/
+theorem C13_F28_repaired : dhStdevAlways = true := by decide
 
 /-- F27 repaired: the latitude is written in the unit process_parameters reads (false on the pinned tree) -/
 theorem C13_F27_repaired : latitudeInGons = true := by decide
@@ -205,9 +384,9 @@ example : (exportObs strFmt true "S" ⟨.direction, "S", "B", "", "5", "10", "0"
 example : (match parseObs strFmt "S" "0" "7" .direction [(.bs, "B")] with
     | .error .undefinedAttribute => true | _ => false) = true := by decide
 -- <dh> with a distance / with a standard deviation
-example : (exportDh strFmt true (· != "0") ⟨"A", "B", "1.25", "0.7", "8.4", ""⟩).2 =
-    [(.from_, "A"), (.to, "B"), (.val, "1.25"), (.dist, "0.7")] := by decide
-example : (exportDh strFmt true (· != "0") ⟨"A", "B", "1.25", "0", "3", "x"⟩).2 =
+example : (exportDh strFmt true (· != "0") true ⟨"A", "B", "1.25", "0.7", "8.4", ""⟩).2 =
+    [(.from_, "A"), (.to, "B"), (.val, "1.25"), (.dist, "0.7"), (.stdev, "8.4")] := by decide
+example : (exportDh strFmt true (· != "0") true ⟨"A", "B", "1.25", "0", "3", "x"⟩).2 =
     [(.from_, "A"), (.to, "B"), (.val, "1.25"), (.stdev, "3"), (.extern, "x")] := by decide
 -- x, y, z of one point (y mirrored), full matrix: cov(x,y) and cov(y,z) change sign, cov(x,z) and the diagonal do not
 example : entrySigns 3 2 (fun i => i == 2) = [false, true, false, false, true, false] := by decide
@@ -241,9 +420,29 @@ example : (canon sampleNet).points.map (·.id) = ["A", "B"] := by decide
 -- a printer with a fixed number of decimal digits (units of 10⁻⁴ printed in units of 10⁻³) satisfies the hypotheses,
 -- is lossy, and the quantised sample network (inconsistent axes, a constrained and an unused point, a vectors cluster)
 -- meets the side condition
-example : decCodec.Printer decQ := decCodec_printer
+example : decCodec.Printer decQ decQd := decCodec_printer
 example : decCodec.rd (decCodec.fmt 1001) = some 1010 := by rw [decCodec_printer.rd_fmt]; rfl
-example : (quantNet decCodec decQ lossyNet).WF decCodec (fun x => decQ x = x) := lossyNet_WF
+example : decCodec.rdDeg (decCodec.fmtDeg 123456) = some 123500 := by rw [decCodec_printer.rdDeg_fmtDeg]; rfl
+example : (quantNet decCodec decQ decQd lossyNet).WF decCodec (fun x => decQ x = x) (fun x => decQd x = x) := lossyNet_WF
 example : lossyNet.head.ys = true := by decide
+-- output in degrees: an `<obs>` cluster with a direction, a distance, an angle and a full covariance matrix; the
+-- quantised network meets the (decidable) side condition, and the theorem applies to it
+example : lossyNetDeg.par.gons = false := rfl
+example : (quantNet decCodec decQ decQd lossyNetDeg).WF decCodec (fun x => decQ x = x) (fun x => decQd x = x) := lossyNetDeg_WF
+example : parseNet decCodec (fun _ => 7) lossyNet.par (exportNet decCodec lossyNetDeg)
+    = .ok (canon (quantNet decCodec decQ decQd lossyNetDeg)) :=
+  C13_roundtrip_network_printer decCodec_printer _ _ _ lossyNetDeg_WF
+-- the hypothesis of the exact theorem is decidable: evaluated on the sample network; the parser theorems apply to what
+-- the model reads from the sample network's own export
+example : unaryCodec.ellKnown "wgs84" = true := rfl
+example : (sampleNet.par).Guards unaryCodec := by unfold Params.Guards; decide
+example : sampleNet.WF unaryCodec (fun _ => True) (fun _ => True) := by decide
+-- the refinement pass moves a constrained point like a free one, and leaves a fixed one
+example : (refineNet (fun _ a d => a + d) 0 [5, 7, 9] [.X "B", .Y "B", .Z "B"] sampleNet).points.map (·.xy) =
+    [some (1, 2), some (9, 12), some (6, 7)] := by decide
+-- converged: zero iterations; not converged: the budget is used up
+example : refineLoop (fun n : Nat => if n < 3 then some (n + 1) else none) 10 0 = (3, 3) := by decide
+example : refineLoop (fun n : Nat => if n < 3 then some (n + 1) else none) 10 3 = (3, 0) := by decide
+example : refineLoop (fun n : Nat => if n < 3 then some (n + 1) else none) 2 0 = (2, 2) := by decide
 
 end Gama.Props.C13
